@@ -57,7 +57,31 @@ func (vc *FnVC) call(st *State, c *ssa.CallCommon, instr *ssa.Call, rt types.Typ
 		fv := vc.val(st, c.Value)
 		vc.safety(st, "nil", vc.srcTextCall(c, instr)+".func", smtNot(sx("=", fv.S, "0")))
 		ws, all := vc.G.callWrites(vc.fn, c)
-		return vc.havocCall(st, ws, all, rt, "dynamic call", args)
+		res := vc.havocCall(st, ws, all, rt, "dynamic call", args)
+		if par, ok := c.Value.(*ssa.Parameter); ok && vc.unit != nil {
+			for _, vs := range vc.unit.Visits {
+				if vs.Func != par.Name() || vs.Arg >= len(args) {
+					continue
+				}
+				ck, rk := "CALLS!"+vs.Func, "CALLSOK!"+vs.Func
+				if vc.keys[ck] == nil {
+					vc.key(ck, "(Array Int Bool)", "ghost")
+					vc.fact(sx("=", entrySym(ck), "((as const (Array Int Bool)) false)"))
+					vc.key(rk, "Bool", "ghost")
+					vc.fact(entrySym(rk))
+				}
+				a := args[vs.Arg]
+				ref := a.S
+				if sortOf(a.T) == "Iface" {
+					ref = sx("i.pay", a.S)
+				}
+				vc.set(st, ck, sx("store", vc.get(st, ck), ref, "true"))
+				if res != nil && isBoolVal(res) {
+					vc.set(st, rk, smtAnd(vc.get(st, rk), res.S))
+				}
+			}
+		}
+		return res
 	}
 	if callee.Name() == "ssa:wrapnilchk" && len(args) > 0 {
 		return args[0]
@@ -234,7 +258,7 @@ func (vc *FnVC) applyContract(st *State, u *Unit, callee *ssa.Function, pkg *typ
 			}
 			ks := []string{k}
 			if strings.HasPrefix(k, "MD!") {
-				ks = append(ks, "MV!"+k[3:], "ML")
+				ks = append(ks, "MV!"+k[3:], "ML!"+k[3:])
 				for _, kk := range ks {
 					if vc.keys[kk] == nil {
 						if ki := vc.G.keyInfo(kk); ki != nil {
@@ -429,6 +453,11 @@ func (vc *FnVC) appendOp(st *State, c *ssa.CallCommon, args []*Val, rt types.Typ
 	if len(args) > 1 {
 		n, at, ok = vc.srcElems(st, c.Args[1], args[1])
 	}
+	if isStruct(elem) && len(args) > 1 {
+		if r := vc.structAppend(st, s, args[1], elem, rt); r != nil {
+			return r
+		}
+	}
 	if mk == nil || !ok {
 		// struct elements (or unknown source): sound over-approximation
 		res := vc.freshVal(st, rt, "append")
@@ -540,4 +569,85 @@ func (vc *FnVC) rootPkg() *types.Package {
 		return vc.fn.Parent().Pkg.Pkg
 	}
 	return nil
+}
+
+// leaf describes one scalar field reachable inside a struct element through embedded structs.
+type leaf struct {
+	key   string                   // heap key
+	sort  string                   // element sort
+	ref   func(elem string) string // object holding the field, given the element reference
+	unref func(r string) string    // inverse: the element reference, given the object holding the field
+}
+
+func (vc *FnVC) leafFields(t types.Type, ref func(string) string, unref func(string) string) []leaf {
+	u := t.Underlying().(*types.Struct)
+	var out []leaf
+	for i := 0; i < u.NumFields(); i++ {
+		f := u.Field(i)
+		if isStruct(f.Type()) {
+			fname := f.Name()
+			tt := t
+			vc.embRef(tt, fname, "0") // declare
+			embFn := "emb!" + sanitize(typeName(tt)) + "!" + fname
+			out = append(out, vc.leafFields(f.Type(),
+				func(e string) string { return sx(embFn, ref(e)) },
+				func(r string) string { return unref(sx(embFn+"~inv", r)) })...)
+			continue
+		}
+		k := vc.fieldKey(t, f)
+		if k == nil {
+			continue
+		}
+		out = append(out, leaf{key: k.Name, sort: sortOf(f.Type()), ref: ref, unref: unref})
+	}
+	for name, gf := range vc.G.C.GhostFields[typeName(t)] {
+		_ = name
+		if k, gt, err := vc.ghostFieldKey(vc.envAt(vc.entry, nil), gf); err == nil {
+			out = append(out, leaf{key: k, sort: sortOf(gt), ref: ref, unref: unref})
+		}
+	}
+	return out
+}
+
+// structAppend models append(s, src...) exactly for slices whose elements are structs (objects elem(base, i)).
+func (vc *FnVC) structAppend(st *State, s, src *Val, elem types.Type, rt types.Type) *Val {
+	id := func(x string) string { return x }
+	leaves := vc.leafFields(elem, id, id)
+	if len(leaves) == 0 || len(leaves) > 80 {
+		return nil
+	}
+	efn := "elem!" + sanitize(typeName(elem))
+	vc.elemRef(elem, "0", "0") // declare
+	n := sx("s.len", src.S)
+	newLen := vc.define("alen", "Int", sx("+", sx("s.len", s.S), n))
+	inPlace := vc.define("inplace", "Bool", sx("<=", newLen, sx("s.cap", s.S)))
+	newBase := vc.newRef(st, "app")
+	capv := vc.freshName("acap")
+	vc.declare(capv, "Int")
+	vc.assume(st, smtAnd(sx(">=", capv, newLen), sx("<=", capv, maxLen)))
+	resBase := vc.define("abase", "Int", smtIte(inPlace, sx("s.base", s.S), newBase))
+	resOff := vc.define("aoff", "Int", smtIte(inPlace, sx("s.off", s.S), "0"))
+	res := vc.define("app", "Slice", sx("mkslice", resBase, resOff, newLen, smtIte(inPlace, sx("s.cap", s.S), capv)))
+	start := vc.define("astart", "Int", sx("+", sx("s.off", s.S), sx("s.len", s.S)))
+	for _, lf := range leaves {
+		old := vc.get(st, lf.key)
+		nf := vc.freshName(shortKey(lf.key) + "~app")
+		vc.declare(nf, "(Array Int "+lf.sort+")")
+		e := lf.unref("r")                 // candidate element reference
+		eb := sx(efn+"~b", e)              // its base
+		ei := sx(efn+"~i", e)              // its index
+		isEl := sx("=", lf.ref(sx(efn, eb, ei)), "r")
+		// in place: elements start..start+n of the old base take the source elements
+		tgt1 := smtAnd(isEl, sx("=", eb, sx("s.base", s.S)), sx("<=", start, ei), sx("<", ei, sx("+", start, n)))
+		val1 := sx("select", old, lf.ref(sx(efn, sx("s.base", src.S), sx("+", sx("s.off", src.S), sx("-", ei, start)))))
+		// reallocated: elements 0..newLen of the new base
+		tgt2 := smtAnd(isEl, sx("=", eb, newBase), sx("<=", "0", ei), sx("<", ei, newLen))
+		val2 := smtIte(sx("<", ei, sx("s.len", s.S)),
+			sx("select", old, lf.ref(sx(efn, sx("s.base", s.S), sx("+", sx("s.off", s.S), ei)))),
+			sx("select", old, lf.ref(sx(efn, sx("s.base", src.S), sx("+", sx("s.off", src.S), sx("-", ei, sx("s.len", s.S)))))))
+		body := smtIte(smtAnd(inPlace, tgt1), val1, smtIte(smtAnd(smtNot(inPlace), tgt2), val2, sx("select", old, "r")))
+		vc.assume(st, fmt.Sprintf("(forall ((r Int)) (! (= (select %s r) %s) :pattern ((select %s r))))", nf, body, nf))
+		st.m[lf.key] = nf
+	}
+	return &Val{T: rt, S: res}
 }
